@@ -19,6 +19,15 @@ Relax(n, E, unit, D) == [v \in Nodes(n) |->
 RECURSIVE Iter(_, _, _, _, _)
 Iter(n, E, unit, D, k) == IF k = 0 THEN D ELSE Iter(n, E, unit, TLCEval(Relax(n, E, unit, D)), k - 1)
 Dist(n, E, unit, src) == Iter(n, E, unit, [v \in Nodes(n) |-> IF v = src THEN 0 ELSE -1], n)
+\* the same distances with the incoming edges of every node indexed once (inE) and iteration up to the fixpoint: for graphs
+\* with a thousand nodes
+InIndex(n, E) == TLCEval([v \in Nodes(n) |-> {j \in 1..Len(E) : E[j][2] = v}])
+RelaxI(n, E, inE, unit, D) == [v \in Nodes(n) |->
+   LET cands == {IF D[E[i][1]] = -1 THEN -1 ELSE D[E[i][1]] + (IF unit THEN 1 ELSE E[i][3]) : i \in inE[v]} \ {-1}
+   IN IF cands = {} THEN D[v] ELSE Better(D[v], MinSet(cands))]
+RECURSIVE IterI(_, _, _, _, _, _)
+IterI(n, E, inE, unit, D, k) == LET D2 == TLCEval(RelaxI(n, E, inE, unit, D)) IN IF k = 0 \/ D2 = D THEN D ELSE IterI(n, E, inE, unit, D2, k - 1)
+DistI(n, E, inE, unit, src) == IterI(n, E, inE, unit, TLCEval([v \in Nodes(n) |-> IF v = src THEN 0 ELSE -1]), n)
 \* ---- connected components of a symmetric graph: label = smallest reachable node
 Label(n, E) == TLCEval([v \in Nodes(n) |-> LET D == TLCEval(Dist(n, E, TRUE, v)) IN MinSet({u \in Nodes(n) : D[u] # -1})])
 Components(n, E) == LET L == Label(n, E) IN {{v \in Nodes(n) : L[v] = c} : c \in {L[v] : v \in Nodes(n)}}
